@@ -1,0 +1,6 @@
+//go:build verif
+
+package rel
+
+// Verification hook: fix the hash seeds before any package-level value of rel is built.
+import _ "github.com/arr-ai/arrai/internal/verifseed"
